@@ -17,6 +17,10 @@ import (
 )
 
 var keysH = []string{"-", "00", "01", "0001", "00ff", "61", "6162", "ff", "ff00", "0100"}
+
+// int32 keys as their 4 big-endian bytes: small, negative, surrogate range, beyond the last code point, extremes
+var keysI = []string{"00000000", "00000001", "00000061", "000000ff", "00000100", "0000d800", "0000dfff", "0000fffd", "00110000",
+	"7fffffff", "80000000", "fffffffe", "ffffffff", "ffff0000"}
 var keysS = []string{"-", "61", "62", "6162", "616263", "6261", "7e", "41", "6120"}
 
 type gcase struct {
@@ -510,11 +514,14 @@ func (*eng) Gen(r *hx.Rand, n int, tier string, prop string, out *hx.Out) {
 		if c%3 == 1 {
 			mode, univ = "s", keysS
 		}
+		if c%7 == 3 {
+			mode, univ = "i", keysI
+		}
 		out.P("#case %s%d", mode, c)
 		// a small key universe per case forces collisions; always allow the empty key
 		nk := 3 + cr.Intn(4)
 		keys := []string{}
-		if cr.Chance(60) {
+		if cr.Chance(60) && mode != "i" {
 			keys = append(keys, "-")
 		}
 		for len(keys) < nk {
@@ -529,7 +536,7 @@ func (*eng) Gen(r *hx.Rand, n int, tier string, prop string, out *hx.Out) {
 		}
 		g := &gcase{r: cr, out: out, keys: keys,
 			shM: map[int]map[string]int{}, shS: map[int]map[string]int{}, shT: map[int]map[string]int{}}
-		if cr.Chance(70) {
+		if cr.Chance(70) && mode != "i" { // the preludes use the empty key, which int32 keys do not have
 			g.prelude(c % 6)
 		}
 		target := 22 + cr.Intn(14)
